@@ -261,6 +261,14 @@ func (e *Exec) jsonAssign(tp Ptr, tt, st types.Type, v Value) Value {
 			e.jsonMergeStruct(tp, tt, sv)
 			return Iface{}
 		}
+		if p, ok := under(tt).(*types.Pointer); ok {
+			// a non-nil pointer target is decoded into: the existing pointee is reused, like the real decoders do
+			if cur, ok := e.load(tp).(Ptr); ok && !cur.IsNil() {
+				if nv, ok := v.(Ptr); ok && !nv.IsNil() {
+					return e.jsonAssign(cur, p.Elem(), p.Elem(), loadRaw(nv))
+				}
+			}
+		}
 		e.store(tp, v)
 		return Iface{}
 	}
